@@ -279,6 +279,10 @@ struct Plan
     uint64_t sched_seed = 0;
     bool explicit_schedule = false;
     std::vector<int> schedule;
+    // pre-emption at basic-block edges of the library code (C20, TSan build): mean gap in edges (0 = off), or - in a
+    // replay - the explicit gaps in global draw order
+    long edge_gap = 0;
+    std::vector<long> gaps;
     // free-form parameters of the mode (e.g. the fault position of a C14 replay)
     Json params = Json::object();
 
@@ -296,7 +300,11 @@ struct Plan
             Json s = Json::array();
             for (int x : schedule) s.push(x);
             j.set("schedule", s);
+            Json g = Json::array();
+            for (long x : gaps) g.push(x);
+            j.set("gaps", g);
         }
+        j.set("edge_gap", edge_gap);
         j.set("params", params);
         return j;
     }
@@ -313,6 +321,9 @@ struct Plan
         p.explicit_schedule = j.has("explicit_schedule") && j.at("explicit_schedule").as_bool();
         if (j.has("schedule"))
             for (auto& x : j.at("schedule").a) p.schedule.push_back((int) x.as_int());
+        p.edge_gap = (long) j.geti("edge_gap", 0);
+        if (j.has("gaps"))
+            for (auto& x : j.at("gaps").a) p.gaps.push_back((long) x.as_int());
         if (j.has("params")) p.params = j.at("params");
         return p;
     }
